@@ -27,9 +27,17 @@ One direction of one session — the `Mieru.Arq` sender / receiver / network —
                 `io.EOF` only when that queue is empty and the session is closed. Segments waiting in
                 `recvBuf` behind a gap are never looked at.
 
-`Env` names the two assumptions under which the property holds (both `false` = the code as it is):
+* `localClose`  the reader's session is closed WITHOUT any close request having been delivered: the
+                packet underlay removes a session that has received nothing for `idleSessionTimeout`
+                (60 s; `cleanSessions → RemoveSession → s.Close()`), an underlay that is torn down
+                closes every session gracefully (`baseUnderlay.Close → s.Close()`), and the reader's
+                own output failing ends in `closeWithError`. All of them end in `close(closedChan)`,
+                on which `Read` reports a clean `io.EOF` once the in-order queue is drained.
+
+`Env` names the three assumptions under which the property holds (all `false` = the code as it is):
 `ordered` constrains the network at the moment it hands a close request to the reader, `patient`
-constrains the writer's bounded wait.
+constrains the writer's bounded wait, `kept` says the reader's session is closed by nothing but a
+delivered close request.
 
 The window is not modelled here (it is irrelevant to safety; `Mieru.Arq` / C02 cover it), acks are
 any value not ahead of receipt (C13), and the network may re-deliver anything ever transmitted.
@@ -40,6 +48,7 @@ open Mieru
 structure Env where
   ordered : Bool
   patient : Bool
+  kept : Bool
 deriving DecidableEq, Repr
 
 structure St where
@@ -97,6 +106,8 @@ inductive Step (E : Env) : St → St → Prop
   | recvClose (s : St) (h : 0 < s.netClose)
       (ho : E.ordered = true → ∀ j, j < s.a.qLo → j ∈ s.handed) :
       Step E s { s with netClose := s.netClose - 1, rClosed := true }
+  /-- idle timeout / underlay teardown / reader-side output failure: closed with no close request -/
+  | localClose (s : St) (hk : E.kept = false) : Step E s { s with rClosed := true }
   | read (s : St) (h : s.readPos < s.a.delivered.length) : Step E s { s with readPos := s.readPos + 1 }
   | readEOF (s : St) (h : s.readPos = s.a.delivered.length) (hc : s.rClosed = true) :
       Step E s { s with eof := true }
@@ -106,23 +117,33 @@ inductive Reach (E : Env) : St → Prop
   | step {s t} : Reach E s → Step E s t → Reach E t
 
 /-- the code as it is: no assumption on the network or on the bounded wait -/
-def asIs : Env := ⟨false, false⟩
-/-- both assumptions of the partial theorem -/
-def assumed : Env := ⟨true, true⟩
+def asIs : Env := ⟨false, false, false⟩
+/-- the three assumptions of the partial theorem -/
+def assumed : Env := ⟨true, true, true⟩
 
 /-! ### Executable acceptor (correspondence)
 
 The harness replays what it observed: application calls (`closeCall`, `closeRet`), every datagram
 emitted / handed to an endpoint (decoded), and the reader's final result. Every event must be a step
 (or two) of the model in its current state; the acceptor also records whether the run stayed inside
-the two assumptions. -/
+the three assumptions. -/
+
+/-- `idleSessionTimeout` of pkg/protocol/underlay_packet.go in milliseconds (tied to the source by
+    `Props/C03.close_wait_and_idle_constants`) -/
+def idleTimeoutMs : Nat := 60000
+
+/-- the bounded wait of `closeWithError`: 1000 iterations of `time.Sleep(time.Millisecond)` (tied to
+    the source by `Props/C03.close_wait_and_idle_constants`) -/
+def closeWaitMs : Nat := 1000
 
 inductive Ev where
   | arq (e : Arq.Ev)
   | closeCall
-  | closeSend          -- a close request for the session left the writer's endpoint
+  | closeSend (ms : Nat)  -- a close request for the session left the writer's endpoint, `ms` after `Close()` was called
   | closeRet           -- Close() returned
   | closeDeliver       -- a close request / response for the session was handed to the reader's endpoint
+  | localClose (idleMs : Nat)  -- the reader's session was closed with no close request delivered, after
+                       -- its endpoint had been handed nothing for `idleMs` milliseconds
   | readAll            -- the reader application consumes everything that is readable
   | readEOF            -- … and then sees io.EOF
 deriving Repr
@@ -131,6 +152,7 @@ structure Acc where
   s : St
   ordered : Bool := true   -- every close delivery so far found all transmitted data handed over
   patient : Bool := true   -- no forced close, no abandon
+  kept : Bool := true      -- the reader's session was closed only by a delivered close request
 deriving Repr
 
 def allHanded (s : St) : Bool := (List.range s.a.qLo).all (fun j => s.handed.contains j)
@@ -158,20 +180,24 @@ def accept (c : Acc) : Ev → Option Acc
       | none => none
       | some a' => some { c with s := { c.s with a := a' } }
   | .closeCall => if c.s.closeReq then none else some { c with s := { c.s with closeReq := true } }
-  | .closeSend =>
+  | .closeSend ms =>
       if !c.s.closeReq then none
       else if c.s.wClosed then some { c with s := { c.s with netClose := c.s.netClose + 1 } }
       else if c.s.a.qLo = c.s.a.segs.length then
         some { c with s := { c.s with closeSent := true, netClose := c.s.netClose + 1 } }
+      else if ms < closeWaitMs then none   -- written out directly before the bounded wait can have expired
       else some { c with s := { c.s with closeSent := true, netClose := c.s.netClose + 1 }, patient := false }
   | .closeRet =>
-      if !c.s.closeReq then none
-      else if c.s.closeSent then some { c with s := { c.s with wClosed := true } }
-      else some { c with s := { c.s with wClosed := true }, patient := false }
+      -- `Close()` returns only after its close request has left (queued or forced); the model's
+      -- `abandon` (output failing) has no counterpart on the simulated network
+      if c.s.closeReq && c.s.closeSent then some { c with s := { c.s with wClosed := true } } else none
   | .closeDeliver =>
       if c.s.closeSent || c.s.wClosed then
         some { c with s := { c.s with rClosed := true }, ordered := c.ordered && allHanded c.s }
       else none
+  | .localClose idleMs =>
+      if idleMs < idleTimeoutMs then none
+      else some { c with s := { c.s with rClosed := true }, kept := false }
   | .readAll => some { c with s := { c.s with readPos := max c.s.readPos c.s.a.delivered.length } }
   | .readEOF =>
       if c.s.rClosed && c.s.readPos == c.s.a.delivered.length then some { c with s := { c.s with eof := true } }
@@ -220,6 +246,14 @@ def input (r : SRx) : Item → SRx
   | .other => r
 
 def run (r : SRx) (items : List Item) : SRx := items.foldl input r
+
+/-- The reader's session is closed locally, with no close request on the wire: the underlay the session
+    is attached to is torn down (`RunEventLoop` returns on a reset / read error / failed open of ANY
+    session's segment → `baseUnderlay.Close()` → `s.Close()` on every session — a GRACEFUL close) or the
+    session is removed. `Read` then drains the queue and reports a clean `io.EOF`. Outside the faults
+    C03 quantifies over (the TCP connection must die), modelled so that what the stream-transport
+    theorems assume — the connection survives — is explicit. -/
+def localClose (r : SRx) : SRx := { r with closed := true }
 
 inductive RdEv where
   | got (p : Bytes)
